@@ -7,6 +7,7 @@
   both are checked attribute by attribute by the harness on the real objects).
 -/
 import TT.Lemmas.RecvSim
+import TT.Lemmas.ArenaSeq
 
 namespace TT
 
@@ -15,7 +16,7 @@ namespace TT
 theorem C09_attributes (d d' : CallSite) :
     d = d' ↔ (d.kind = d'.kind ∧ d.name = d'.name ∧ d.target = d'.target ∧ d.level = d'.level ∧
       d.modulePath = d'.modulePath ∧ d.file = d'.file ∧ d.line = d'.line ∧ d.fields = d'.fields) := by
-  sorry
+  cases d; cases d'; simp
 
 /-- The object handed out for a description has exactly that description, and objects already
     handed out keep their content. -/
@@ -23,7 +24,7 @@ theorem C09_content (arena : List CallSite) (d : CallSite) :
     (arenaAlloc arena d).1.getD (arenaAlloc arena d).2.1 default = d ∧
     (arenaAlloc arena d).2.1 < (arenaAlloc arena d).1.length ∧
     ∀ j, j < arena.length → (arenaAlloc arena d).1.getD j default = arena.getD j default := by
-  sorry
+  exact ⟨arenaAlloc_getD arena d, arenaAlloc_lt arena d, fun j hj => arenaAlloc_old arena d j hj⟩
 
 /-- Equal descriptions resolve to the identical object and only the first announcement allocates
     (hence at most one registration with the host); different descriptions resolve to distinct
@@ -33,7 +34,19 @@ theorem C09_intern (arena : List CallSite) (h : arena.Nodup) (d d' : CallSite) :
     r.1.Nodup ∧ (r.2.2 = true ↔ d ∉ arena) ∧
     arenaAlloc r.1 d = (r.1, r.2.1, false) ∧
     (d ≠ d' → (arenaAlloc r.1 d').2.1 ≠ r.2.1) := by
-  sorry
+  intro r
+  have hnd : r.1.Nodup := ar_alloc_nodup arena d h
+  have hlt : r.2.1 < r.1.length := arenaAlloc_lt arena d
+  have hget : r.1.getD r.2.1 default = d := arenaAlloc_getD arena d
+  refine ⟨hnd, ar_alloc_new_iff arena d, ?_, ?_⟩
+  · have hi := ar_indexOf?_getD r.1 r.2.1 hnd hlt
+    rw [hget] at hi
+    simp only [arenaAlloc, hi]
+  · intro hne heq
+    have h1 := arenaAlloc_getD r.1 d'
+    have h2 := arenaAlloc_old r.1 d' r.2.1 hlt
+    rw [heq, h2, hget] at h1
+    exact hne h1
 
 /-- Keep the first occurrence of every description. -/
 def distinctSites : List CallSite → List CallSite
@@ -45,7 +58,13 @@ def distinctSites : List CallSite → List CallSite
     descriptions in order of first appearance. -/
 theorem C09_arena_is_distinct (ds : List CallSite) :
     ds.foldl (fun a d => (arenaAlloc a d).1) [] = distinctSites ds := by
-  sorry
+  have hd : ∀ l, distinctSites l = ar_distinct l := by
+    intro l
+    induction l with
+    | nil => rfl
+    | cons x xs ih => simp only [distinctSites, ar_distinct, ih]
+  rw [ar_fold_alloc, hd]
+  simp
 
 /-- The receiver registers a call site with the host exactly when its description is new to the
     process, and maps the announced id to the object with that description. -/
@@ -53,13 +72,33 @@ theorem C09_register_iff_new (σ : Sigma) (id : Nat) (d : CallSite) :
     let σ' := onNewCallSite σ id d
     σ'.w.host.log = (if d ∈ σ.w.arena then σ.w.host.log else .register σ.w.arena.length :: σ.w.host.log) ∧
     (σ'.r.mt.get id).map (siteOf σ'.w) = some d := by
-  sorry
+  intro σ'
+  by_cases hd : d ∈ σ.w.arena
+  · obtain ⟨i, hi⟩ : ∃ i, indexOf? d σ.w.arena = some i := by
+      cases hi : indexOf? d σ.w.arena with
+      | none => exact absurd hd ((ar_indexOf?_none_iff d _).1 hi)
+      | some i => exact ⟨i, rfl⟩
+    have hσ : σ' = { r := { σ.r with mt := σ.r.mt.insert id i }, w := { arena := σ.w.arena, host := σ.w.host } } := by
+      show onNewCallSite σ id d = _
+      simp [onNewCallSite, arenaAlloc, hi]
+    rw [hσ]
+    refine ⟨by simp [hd], ?_⟩
+    simp only [AMap.get_insert, if_true, Option.map_some, siteOf]
+    exact congrArg some (indexOf?_some d _ i hi).2
+  · have hi := (ar_indexOf?_none_iff d σ.w.arena).2 hd
+    have hσ : σ' = { r := { σ.r with mt := σ.r.mt.insert id σ.w.arena.length },
+                     w := { arena := σ.w.arena ++ [d], host := σ.w.host.emit (.register σ.w.arena.length) } } := by
+      show onNewCallSite σ id d = _
+      simp [onNewCallSite, arenaAlloc, hi]
+    rw [hσ]
+    refine ⟨by simp [hd, Host.emit], ?_⟩
+    simp [AMap.get_insert, siteOf]
 
 /-- Over any history — any receivers, ids, restore cycles — the arena never holds a description
     twice. -/
 theorem C09_arena_nodup_reachable (w₀ : World) (h : w₀.arena.Nodup) (ops : List HOp) :
     (runHistory (Sys.init w₀) ops).σ.w.arena.Nodup := by
-  sorry
+  exact ar_run_nodup ops _ h
 
 /-- `persist_metadata` returns content-equal data under every id announced or restored:
     it is the bookkeeping's table of known call sites (C02_persisted_is_spec). -/
